@@ -16,6 +16,7 @@ class C02Sketch(Scenario):
         cfg.update({"subject": rng.choice(SUBJECTS), "steps": rng.between(4, self.max_steps), "big": rng.chance(1, 3),
                     # half of the runs stay plain add/remove histories (the fault-free configuration)
                     "extras": rng.chance(1, 2)})
+        cfg["neighbour"] = cfg["extras"] and rng.chance(1, 3)
         return cfg
 
     def gen_step(self, rng):
